@@ -6,6 +6,7 @@
 -/
 import SonicSpec.Model.JsonTree
 import SonicSpec.Model.IO
+import SonicSpec.Model.StrUtf8
 namespace SonicSpec.IO
 open SonicSpec.Json
 
@@ -72,5 +73,20 @@ def decSonic (f : Bytes) : Option (Bytes × Nat) :=
   match f with
   | c :: _ => if isNumStart c then decSonicNumber f else decJson f
   | [] => none
+
+/-- U+FFFD -/
+def replChar : Bytes := [239, 191, 189]
+
+/-- sonic's one-value decoder with ValidateString on a frame that holds ill-formed UTF-8
+    (jitdec/decoder.go:55, optdec/native.go:141): the frame is first copied with every offending
+    byte replaced by U+FFFD, then decoded; the position it reports (`Decoder.Pos()`) counts in
+    that CORRECTED copy, which is longer than the input -/
+def decSonicV (f : Bytes) : Option (Bytes × Nat) :=
+  if Str.validate f then decSonic f else decSonic (Str.correctWith replChar f)
+
+/-- the same decoder with the consumed length counted in the input (never more than the frame):
+    the inner decoder of the specification and of the repaired model -/
+def decSonicIn (f : Bytes) : Option (Bytes × Nat) :=
+  (decSonicV f).map fun (v, n) => (v, min n f.length)
 
 end SonicSpec.IO
